@@ -159,8 +159,14 @@ def check(ctx, case):
         f = lambda a, b: ~a
     else:
         f = {"|": lambda a, b: a | b, "&": lambda a, b: a & b, "-": lambda a, b: a - b, "^": lambda a, b: a ^ b}[op]
+    rnd = I.ROUNDINGS[0]
     r0 = I.outcome(lambda: f(mk(env[0]), mk(env[1])))
     r1 = I.outcome(lambda: f(mk(tenv[0]), mk(tenv[1])))
+    if exact and I.ROUNDINGS[0] != rnd:
+        # Point2D legitimately rounded a computed coordinate with a denominator above 1e9 (limit_denominator): the
+        # two computations are no longer exact images of each other; compared at 1e-6 like the float stream
+        ctx.set_aside += 1
+        exact = False
     if r0[0] != r1[0]:
         fails.append(Fail(kind="O", what="operator outcome depends on the similarity map", impl=(r1[0], str(r1[1])[:80]), expected=(r0[0], str(r0[1])[:80])))
         return fails
